@@ -1456,20 +1456,20 @@ theorem mpz_import_spec (count : Nat) (order : Int) (size : Nat) (endian : Int) 
       rcases ho with rfl | rfl <;> rcases hee with hE | hE
       · -- order 1, endian -1: MPN_REVERSE
         apply hzp (bytesToLimbs data).reverse
-        · simp [mpz_import, mpz_import_core, ← he', hE, htk]
+        · simp [mpz_import, mpz_import_core, mpz_import_fill, ← he', hE, htk]
         · exact Limbs_reverse.mpr hbL
         · rw [hz, List.take_of_length_le (by simp [hbl]), hiv, hE]
           simp [unlayout, bytesToLimbs_chunks count data hl8, List.map_reverse]
       · exact absurd ⟨rfl, hE⟩ hne
       · -- order -1, endian -1: MPN_COPY
         apply hzp (bytesToLimbs data)
-        · simp [mpz_import, mpz_import_core, ← he', hE, htk]
+        · simp [mpz_import, mpz_import_core, mpz_import_fill, ← he', hE, htk]
         · exact hbL
         · rw [hz, List.take_of_length_le (by simp [hbl]), hiv, hE]
           simp [unlayout, bytesToLimbs_chunks count data hl8]
       · -- order -1, endian 1: MPN_BSWAP
         apply hzp ((bytesToLimbs data).map bswap)
-        · simp [mpz_import, mpz_import_core, ← he', hE, htk]
+        · simp [mpz_import, mpz_import_core, mpz_import_fill, ← he', hE, htk]
         · exact Limbs_map_bswap _
         · rw [hz, List.take_of_length_le (by simp [hbl]), hiv, hE]
           simp only [unlayout, show ¬ ((-1 : Int) ≥ 0) by decide, if_false, show ((1 : Int) ≥ 0) by decide, if_true]
@@ -1502,7 +1502,7 @@ theorem mpz_import_spec (count : Nat) (order : Int) (size : Nat) (endian : Int) 
           = (count * (8 * size - nail) + 63) / 64 := by
         rw [Nat.mul_comm count, ← f2]; split <;> simp <;> omega
       apply hzp (if st.lbits ≠ 0 then st.limb :: st.out else st.out).reverse
-      · unfold mpz_import mpz_import_core
+      · unfold mpz_import mpz_import_core mpz_import_fill
         have hnf : ¬ (nail = 0 ∧ size = 8 ∧ align = 0 ∧ order = -1 ∧ e' = -1) := by
           intro h; apply hfast; obtain ⟨a, b, c, d, e⟩ := h; exact ⟨a, b, c, by omega⟩
         have hnf2 : ¬ (nail = 0 ∧ size = 8 ∧ align = 0 ∧ order = -1 ∧ e' = 1) := by
